@@ -319,6 +319,19 @@ fn check_node(n: &Node, pr: &Progs) -> Vec<(String, String, String)> {
             bad.push(("master-reset/raw-door-differs".into(), "Machine::master_reset and RawMachine::master_reset (through raw_mut()) leave different machines".into(), "MasterReset".into()));
         }
     }
+    // ---------- the deprecated second loading door: load_raw = master reset + the bytes written from address 0 ----------
+    {
+        let bytes: Vec<u8> = (0..37u8).map(|i| i.wrapping_mul(29) ^ 0xC5).collect();
+        let mut a = m.clone();
+        #[allow(deprecated)]
+        a.load_raw(bytes.iter());
+        let mut b = m.clone();
+        b.master_reset();
+        b.raw_mut().bus_mut().memory_mut()[..bytes.len()].copy_from_slice(&bytes);
+        if a != b {
+            bad.push(("load-raw/not-master-reset-plus-bytes".into(), format!("load_raw differs from master reset + the bytes written from address 0: state {:?} vs {:?}, registers {:02x?} vs {:02x?}, outputs {:#04x}/{:#04x} vs {:#04x}/{:#04x}", a.state(), b.state(), a.registers().content(), b.registers().content(), a.bus().output_fe(), a.bus().output_ff(), b.bus().output_fe(), b.bus().output_ff()), "LoadRaw".into()));
+        }
+    }
     // ---------- (2) master_reset ----------
     {
         let mut r = m.clone();
